@@ -87,6 +87,11 @@ impl Block for ZeroCrossing {
         if o.is_empty() {
             return Ok(BlockRet::WaitForStream(&self.dst, 1));
         }
+        if self.out_clock.as_ref().is_some_and(|clock| clock.free() == 0) {
+            // One clock sample goes with every output sample.
+            let clock = self.out_clock.as_ref().expect("checked right above");
+            return Ok(BlockRet::WaitForStream(clock, 1));
+        }
         let mut n = 0;
         let mut opos = 0;
         let mut out_clock = match self.out_clock.as_mut().map(|x| x.write_buf()) {
